@@ -44,16 +44,17 @@ type delivery struct {
 }
 
 type scenario struct {
-	op     string // blk | api
-	parent *path  // the candidate's parent path (harness's own fold)
-	r      recipe
-	v      variant
-	bs     *base
-	dels   []delivery
-	cand   *wire.MsgBlock
-	facts  string
-	mode   string
-	bip34  *chainhash.Hash
+	sideCoin *wire.OutPoint // an output created on the candidate's own side branch (reorg contexts)
+	op       string         // blk | api
+	parent   *path          // the candidate's parent path (harness's own fold)
+	r        recipe
+	v        variant
+	bs       *base
+	dels     []delivery
+	cand     *wire.MsgBlock
+	facts    string
+	mode     string
+	bip34    *chainhash.Hash
 }
 
 // plainBlock is a valid coinbase-only block on path p (p is advanced).
@@ -119,6 +120,50 @@ func buildScenario(r recipe) *scenario {
 		s1 := plainBlock(parent, 213, blockSpacing+3)
 		sc.dels = append(sc.dels, delivery{blk: m1}, delivery{blk: m2}, delivery{blk: s1})
 		s = scen{n + 3, n + 2, 1, 0, 1}
+	case "reorgX", "reorgY", "reorgZ":
+		// A long reorganisation in which everything context dependent DIFFERS between the competing branch and
+		// the candidate's own ancestors: the fork is two blocks below the base tip (heights, maturities and the
+		// utxo set differ: base blocks n-1 and n exist only on the branch that gets detached), one branch runs on
+		// timestamps an hour apart (X, Y: the main branch, so its median time is far ahead; Z: the side branch),
+		// and the second side block spends an output (and creates one) that the main branch never touches.
+		// X, Z: the candidate is the LAST block of a nine-block attach list and triggers the reorganisation itself;
+		// Y: it is the last but one and a child triggers it.  All earlier side blocks are stored without checks.
+		main := bs.p.clone()
+		mainDt, sideDt := int64(3600), int64(blockSpacing)
+		if r.ctx == "reorgZ" {
+			mainDt, sideDt = blockSpacing, 3600
+		}
+		for i := 0; i < 6; i++ {
+			sc.dels = append(sc.dels, delivery{blk: plainBlock(main, uint32(221+i), mainDt)})
+		}
+		side := newPath(v)
+		for _, b := range bs.blocks[:n-2] {
+			side.apply(b)
+		}
+		parent = side
+		k := 8
+		if r.ctx == "reorgY" {
+			k = 7
+		}
+		for i := 0; i < k; i++ {
+			var blk *wire.MsgBlock
+			if i == 1 {
+				// spends X = an output of the fan-out tx, creates Y
+				x := bs.fanOp(fanTrue2 + 1)
+				cx := parent.utxo[x]
+				t := bs.b.mkTx(1, 0, []spend{{op: x, c: cx, seq: wire.MaxTxInSequenceNum}}, []*wire.TxOut{txOut(cx.amount-fee, kTrue)})
+				h := parent.height + 1
+				cb := mkCoinbase(heightScript(h, uint32(240+i)), []*wire.TxOut{txOut(subsidyOf(h, v.subsidyIv)+fee, kTrue)})
+				blk = assemble(parent, parent.times[len(parent.times)-1]+sideDt, []*wire.MsgTx{cb, t})
+				parent.apply(blk)
+				y := wire.OutPoint{Hash: t.TxHash(), Index: 0}
+				sc.sideCoin = &y
+			} else {
+				blk = plainBlock(parent, uint32(240+i), sideDt)
+			}
+			sc.dels = append(sc.dels, delivery{blk: blk})
+		}
+		s = scen{n + 7, n + 6, 1, 0, 1}
 	case "orphan2":
 		// the candidate itself takes the orphan path: its parent X is a sibling of the tip that arrives later,
 		// so the candidate is then connected by processOrphans through a reorganisation
@@ -160,6 +205,7 @@ func buildScenario(r recipe) *scenario {
 		return nil
 	}
 	c := newCand(bs, parent)
+	c.sideCoin = sc.sideCoin
 	if !m.applies(v, c.height) {
 		return nil
 	}
@@ -196,7 +242,9 @@ func buildScenario(r recipe) *scenario {
 		sc.dels = append(sc.dels, delivery{blk: sc.cand, watch: true, hdr: true}, delivery{blk: sc.cand, watch: true})
 	case "tip", "fork", "tmpl", "orphan2", "orphan3", "nopow", "restart", "tmpltip":
 		sc.dels = append(sc.dels, delivery{blk: sc.cand, watch: true})
-	case "side", "side2":
+	case "reorgX", "reorgZ":
+		sc.dels = append(sc.dels, delivery{blk: sc.cand, watch: true})
+	case "side", "side2", "reorgY":
 		sc.dels = append(sc.dels, delivery{blk: sc.cand, watch: true}, delivery{blk: child(), watch: true})
 	case "orphan":
 		sc.dels = append(sc.dels, delivery{blk: child(), watch: true}, delivery{blk: sc.cand, watch: true})
@@ -713,6 +761,11 @@ func Lines(seed uint64, thorough bool) []string {
 	return out
 }
 
+// contextSensitive: mutators about rules that read the candidate's own ancestors (times, heights, utxo set).
+var contextSensitive = map[string]bool{"valid": true, "bip68t": true, "bip68h": true, "locktime": true, "timeold": true,
+	"maturity": true, "maturity2": true, "respend": true, "otherbranch": true, "sidecoin": true, "cbvalue": true,
+	"bip34": true, "doublespend": true, "seqbits": true}
+
 func generate(R *core.Rand, thorough bool, emit func(class string, nontrivial bool, line string)) {
 	genSolo(R.Fork(), thorough, emit)
 	var parPool []string    // bodies of blk cases that may be bundled into concurrent runs
@@ -748,7 +801,7 @@ func generate(R *core.Rand, thorough bool, emit func(class string, nontrivial bo
 			emit("par", true, "C01 par "+strings.Join(bodies, " | "))
 		}
 	}()
-	ctxs := []string{"tip", "side", "orphan", "fork", "side2", "tmpl", "orphan2", "orphan3", "hdr", "shuffle", "nopow", "restart", "tmpltip"}
+	ctxs := []string{"tip", "side", "orphan", "fork", "side2", "tmpl", "orphan2", "orphan3", "hdr", "shuffle", "nopow", "restart", "tmpltip", "reorgX", "reorgY", "reorgZ"}
 	for vi, v := range variants {
 		for _, m := range mutators {
 			if !m.applies(v, v.baseLen()+1) {
@@ -803,6 +856,12 @@ func generate(R *core.Rand, thorough bool, emit func(class string, nontrivial bo
 						if m.name == "manytx" {
 							stressPool = append(stressPool, sc.body())
 						}
+					}
+				}
+				if !thorough && contextSensitive[m.name] && (vi == 0 || vi == 1 || vi == 4 || vi == 5) {
+					// rules whose verdict depends on the block's own ancestors: always through the long reorganisations
+					for _, c := range []string{"reorgX", "reorgY", "reorgZ"} {
+						picks = append(picks, recipe{vi, c, R.Intn(2), m.name, a})
 					}
 				}
 				for _, r := range picks {
